@@ -57,7 +57,43 @@ pub fn ckv(k: &str, v: &TracedValue) -> String {
     format!("({}, {})", cstr(k), ctv(v))
 }
 pub fn ctvs<S: AsRef<str>>(vs: &TracedValues<S>) -> String {
-    clist(vs.iter(), |(k, v)| ckv(k, v))
+    let text = clist(vs.iter(), |(k, v)| ckv(k, v));
+    if vs.len() >= 2 { intern("v", text) } else { text }
+}
+
+// ---- interning of repeated sub-terms (keeps the cases small: elaboration time is what costs) ----
+thread_local! {
+    static INTERN: std::cell::RefCell<Option<Vec<(String, String)>>> = std::cell::RefCell::new(None);
+}
+/// Starts collecting `let` bindings for the case being printed.
+pub fn intern_begin() {
+    INTERN.with(|i| *i.borrow_mut() = Some(vec![]));
+}
+fn intern(prefix: &str, text: String) -> String {
+    INTERN.with(|i| {
+        let mut i = i.borrow_mut();
+        match i.as_mut() {
+            None => text,
+            Some(table) => {
+                if let Some(pos) = table.iter().position(|(_, t)| *t == text) {
+                    return table[pos].0.clone();
+                }
+                let name = format!("{prefix}{}_", table.len());
+                table.push((name.clone(), text));
+                name
+            }
+        }
+    })
+}
+/// Wraps the term into the collected `let` bindings and stops collecting.
+pub fn intern_wrap(term: &str) -> String {
+    let table = INTERN.with(|i| i.borrow_mut().take()).unwrap_or_default();
+    let mut out = String::new();
+    for (name, text) in &table {
+        out.push_str(&format!("let {name} := {text} in "));
+    }
+    out.push_str(term);
+    out
 }
 
 /// Builds values that have no public constructor.
@@ -85,6 +121,10 @@ pub fn clevel(l: TracingLevel) -> &'static str {
     }
 }
 pub fn ccs(d: &CallSiteData) -> String {
+    let text = ccs_raw(d);
+    intern("d", text)
+}
+fn ccs_raw(d: &CallSiteData) -> String {
     format!(
         "(mk_cs {} {} {} {} {} {} {} {})",
         match d.kind { CallSiteKind::Span => "KSpan", CallSiteKind::Event => "KEvent" },
